@@ -630,6 +630,11 @@ class Symex:
 
     # ------------------------------------------------------------ expressions
     def binop(self, op, a, b, node):
+        # a name without source (S.One, sympy.pi, ...) is an uninterpreted symbol in arithmetic, as in comparisons
+        if isinstance(a, Ext):
+            a = sym(a.name)
+        if isinstance(b, Ext):
+            b = sym(b.name)
         sa, sb = isinstance(a, T), isinstance(b, T)
         if isinstance(a, Obj):
             a, sa = a.term, True
@@ -841,6 +846,9 @@ class Symex:
             self.unsupported(n, "starred outside call")
         if isinstance(n, ast.Yield):
             self.frames[-1].setdefault("$yield", []).append(self.ev(n.value) if n.value is not None else None)
+            return None
+        if isinstance(n, ast.YieldFrom):
+            self.frames[-1].setdefault("$yield", []).extend(self.iterate(self.ev(n.value), n))
             return None
         if isinstance(n, ast.Slice):
             return slice(self.ev(n.lower) if n.lower else None, self.ev(n.upper) if n.upper else None,
